@@ -658,6 +658,13 @@ find_value (const DBusString *str,
                   BUS_SET_OOM (error);
                   goto failed;
                 }
+
+              /* The backslash represented itself. The character after it
+               * is not escaped: it can be a comma that ends the value or
+               * another backslash that escapes a quote mark, so look at
+               * it again as ordinary unquoted text. */
+              quote_char = '\0';
+              continue;
             }
 
           if (!_dbus_string_append_byte (value, *p))
